@@ -320,6 +320,9 @@ impl Property for C10 {
                             }
                         }
                         let co = if st.co_cycle && !dc.contains("repeated-var") && !dc.contains("unbounded") { ":coinductive-cycle" } else { "" };
+                        // recursive solver, hypotheses over traits with parameters: the recorded finding (its Ambiguous / Unique
+                        // also depends on what is cached)
+                        let co = if co.is_empty() && *sv != Sv::Slg && !dc.contains("unbounded") { env_qual(&case.pg.goals[*gi], &case.pg.program) } else { co };
                         out.fail(
                             format!("{}:history-differs:{}{}", sv.name(), dc, co),
                             format!("[{}] goal `{}` at history position {}: fresh solver says `{}`, used solver says `{}`\n{}history (goal texts): {:?}", sv.name(), lg.text, pos, exp, got, low.text, case.history[..=pos].iter().map(|i| low.goals[*i].as_ref().map(|g| g.text.clone()).unwrap_or_default()).collect::<Vec<_>>()),
@@ -345,9 +348,8 @@ impl Property for C10 {
                             let unbounded = !(goal_is_closed(&case.pg.goals[gi]) || fin);
                             let mut dc = if unbounded && (a.starts_with("Ambiguous") || b.starts_with("Ambiguous")) { "precision-only:unbounded-answers".to_string() } else { diff_class(a, b) };
                             // hypotheses over traits with parameters: the recorded recursive-solver finding (elaboration introduces an existential)
-                            let has_hyp = case.pg.goals[gi].prefix.iter().any(|p| matches!(p, crate::model::Prefix::If(_)));
-                            if has_hyp && env_existential(&case.pg.program) && !dc.contains("unbounded") {
-                                dc.push_str(":env-with-trait-params");
+                            if !dc.contains("unbounded") {
+                                dc.push_str(env_qual(&case.pg.goals[gi], &case.pg.program));
                             }
                             out.fail(format!("rec:cache-on-off-differ:{}", dc), format!("recursive solver, goal `{}`: cache on `{}` vs cache off `{}`\n{}", low.goals[gi].as_ref().unwrap().text, a, b, low.text));
                         }
